@@ -372,7 +372,7 @@ def replay_bin(res, binname, cases, cfgs, expect_ops=None, env_extra=None, tag=N
                        "mismatches": [{"prop": sanitizer_prop, "cfg": cfg, "ty": "?", "op": "AddressSanitizer report", "what": p.stderr[-1500:],
                                        "case": {"fam": "asan", "report": rp}}]}, open(out, "w"))
             return cfg, out
-        if p.returncode in (-11, -7, -4):
+        if p.returncode in (-11, -7, -4) or (p.returncode == -6 and HEAP_ABORT.search(p.stderr or "")):
             # SIGSEGV / SIGBUS / SIGILL inside the library under test (the harness is safe Rust): a violation, not a tool error
             keep = os.path.join(WORK, "replays", f"{res.prop}-crash-{tag}-{cfg}.cases")
             os.makedirs(os.path.dirname(keep), exist_ok=True)
@@ -397,6 +397,10 @@ def replay_bin(res, binname, cases, cfgs, expect_ops=None, env_extra=None, tag=N
                 raise ToolError(f"vacuity guard: operations never exercised in {cfg}: {missing[:20]}")
         if r["cases"] == 0 and not r["mismatch_count"]:
             raise ToolError(f"vacuity guard: no case replayed in {cfg}")
+
+
+# glibc's own heap-consistency aborts (SIGABRT): memory was corrupted by the code under test -- a crash like SIGSEGV, not a tool error
+HEAP_ABORT = re.compile(r"free\(\): |malloc\(\): |double free or corruption|corrupted (size|double-linked|top size)|munmap_chunk\(\)|realloc\(\): ")
 
 
 def generic_replay(res, path, binname, only=None, env_keys=("ty",)):
@@ -667,7 +671,7 @@ def replay_dispatch(res, path, binname, only=None, env_keys=("ty",)):
         build_all([cfg], [case["bin"]])
         out = os.path.join(WORK, res.prop, f"replay.{cfg}.json")
         p = run_bin(cfg, case["bin"], [case["cases"], out], env_extra=case.get("env") or None)
-        if p.returncode in (-11, -7, -4):
+        if p.returncode in (-11, -7, -4) or (p.returncode == -6 and HEAP_ABORT.search(p.stderr or "")):
             print(f"process killed by signal {-p.returncode}")
             print(f"VIOLATION property={res.prop} replay={path}")
             return EXIT_VIOLATION
